@@ -86,6 +86,23 @@ theorem setOf_perm_invariant (o : EncOpts) (hi : o.ifNotEmpty = false) (t : Ty) 
     | cons a l ih => intro hl; exact ⟨veq_refl t a (hl a (by simp)), ih (fun x hx => hl x (by simp [hx]))⟩
   exact this xs hty
 
+/-- **decoding a DER encoding and encoding the result again gives the same octets** (the decoder may hand back
+    another representative of the abstract value - SET OF in wire order, a REAL normalised - the encoder does not care) -/
+theorem der_reencode_partial (o : EncOpts) (hi : o.ifNotEmpty = false) (t : Ty) (v : Val) (b tail : Bytes)
+    (hreg : t.reg true Generated.derEnc true = true) (hwf : t.WF = true) (hd : t.dfltExact = true)
+    (hty : HasType t v = true) (hn : noE3 true t v = true) (h : encItem Generated.derEnc o t v = .ok b) :
+    ∃ w, decodeOne Generated.derDecByType t (b ++ tail) = .ok (w, tail) ∧ encItem Generated.derEnc o t w = .ok b := by
+  obtain ⟨w, hdec, hv⟩ := (C02.der_roundtrip_partial o hi t v b tail hreg hwf hty hn h).1
+  exact ⟨w, hdec, der_bytes_depend_only_on_value_partial o hi t v w hreg hwf hd hty hn hv b h⟩
+
+/-- the same for CER -/
+theorem cer_reencode_partial (o : EncOpts) (hi : o.ifNotEmpty = false) (t : Ty) (v : Val) (b tail : Bytes)
+    (hreg : t.reg true Generated.cerEnc false = true) (hwf : t.WF = true) (hd : t.dfltExact = true)
+    (hty : HasType t v = true) (hn : noE3 true t v = true) (h : encItem Generated.cerEnc o t v = .ok b) :
+    ∃ w, decodeOne Generated.cerDecByType t (b ++ tail) = .ok (w, tail) ∧ encItem Generated.cerEnc o t w = .ok b := by
+  obtain ⟨w, hdec, hv⟩ := (C02.cer_roundtrip_partial o hi t v b tail hreg hwf hty hn h).1
+  exact ⟨w, hdec, cer_bytes_depend_only_on_value_partial o hi t v w hreg hwf hd hty hn hv b h⟩
+
 /-- the hypotheses are met by a non-trivial element type: SET OF (SET OF INTEGER), and by a record with a SET OF member,
     a REAL and a DEFAULT of exact type -/
 example :
